@@ -512,6 +512,12 @@ def c16_read_keys_exported():
     return out
 
 
+# constructor parameters that need not be saved: back-pointers rebuilt when the model is linked / initialised, and the
+# inputs of the random quality model, which only feed BaseComponent.error (never saved, never read by any property)
+DERIVED_OR_UNOBSERVABLE = {"parent_workflow", "parent_product", "error", "error_tolerance", "quality_skill_mean_map",
+                           "quality_skill_sd_map", "additional_work_amount", "additional_task_flag", "actual_work_amount"}
+
+
 def c16_format_complete():
     """C16(c): every constructor parameter whose attribute is read on the simulation path is saved and passed back on load"""
     fns = _functions()
@@ -529,9 +535,11 @@ def c16_format_complete():
                 exported_attrs.setdefault(a, key)
         loaded = set()
         for where, kws in calls.get(cls, []):
-            loaded |= {p for p, k in kws.items() if k is not None}
+            loaded |= set(kws)
         for p, attr in sorted(pa.items()):
             if attr not in sim_reads:
+                continue
+            if attr in DERIVED_OR_UNOBSERVABLE:
                 continue
             ok = attr in exported_attrs and p in loaded
             why = []
